@@ -247,9 +247,11 @@ Lemma exMR_hyps : (2 <= a_d exMR)%nat /\ Rabs (a_f0 exMR) <= 2 /\
 Proof.
   split; [cbn; lia|]. split; [cbn [a_f0 exMR]; rewrite Rabs_R1; lra|]. split; [|split; [|split]].
   - intros k p. cbn [a_f1 exMR].
-    destruct k as [|[|[|k]]]; cbn [nth]; destruct p as [|[|p]]; cbn [nth];
-      rewrite ?Rabs_R0, ?Rabs_R1, ?Rabs_Ropp, ?Rabs_R1; try lra;
-      rewrite Rabs_right; lra.
+    assert (E : forall k, nth k (@nil (list R)) [] = []) by (intros [|?]; reflexivity).
+    assert (E0 : forall p, nth p (@nil R) 0 = 0) by (intros [|?]; reflexivity).
+    destruct k as [|[|[|k]]]; cbn [nth]; rewrite ?E; destruct p as [|[|p]]; cbn [nth]; rewrite ?E0;
+      repeat match goal with |- context [match ?x with O => _ | S _ => _ end] => destruct x end; cbn [nth];
+      apply Rabs_le; lra.
   - intros. rewrite Rabs_R1. lra.
   - reflexivity.
   - intros k Hk. cbn in Hk. destruct k as [|[|[|k]]]; cbn; lia.
